@@ -1312,7 +1312,11 @@ class NumpyStub:
 
             def f2(a, b):
                 if isinstance(a, Sym) or isinstance(b, Sym):
-                    return mk(fn(term_of(a, "float"), term_of(b, "float")), "float", True)
+                    ta, tb = term_of(a, "float"), term_of(b, "float")
+                    r = fn(ta, tb)
+                    if name == "hypot":     # axioms (theorems about the real function): r >= 0, r^2 = a^2 + b^2
+                        self.I.ctx.assume(z3.And(r >= 0, r * r == ta * ta + tb * tb), "axiom hypot")
+                    return mk(r, "float", True)
                 with _np.errstate(all="ignore"):
                     return float(getattr(_np, name)(a, b))
             if isinstance(x, (Arr, list, tuple)) or isinstance(y, (Arr, list, tuple)):
